@@ -1,0 +1,59 @@
+//go:build verif
+
+/*
+ Licensed to the Apache Software Foundation (ASF) under one
+ or more contributor license agreements.  See the NOTICE file
+ distributed with this work for additional information
+ regarding copyright ownership.  The ASF licenses this file
+ to you under the Apache License, Version 2.0 (the
+ "License"); you may not use this file except in compliance
+ with the License.  You may obtain a copy of the License at
+
+     http://www.apache.org/licenses/LICENSE-2.0
+
+ Unless required by applicable law or agreed to in writing, software
+ distributed under the License is distributed on an "AS IS" BASIS,
+ WITHOUT WARRANTIES OR CONDITIONS OF ANY KIND, either express or implied.
+ See the License for the specific language governing permissions and
+ limitations under the License.
+*/
+
+package locking
+
+import "sync/atomic"
+
+// Verification hooks: only compiled with the "verif" build tag. The methods below shadow the Lock/RLock methods
+// promoted from the embedded go-deadlock types and call an optional yield function first, so that a test can perturb
+// the goroutine schedule at every lock acquisition. Without a yield function the behaviour is unchanged.
+
+var verifYield atomic.Pointer[func()]
+
+// VerifSetYield installs (or with nil removes) the function called before every Lock / RLock.
+func VerifSetYield(f func()) {
+	if f == nil {
+		verifYield.Store(nil)
+		return
+	}
+	verifYield.Store(&f)
+}
+
+func verifMaybeYield() {
+	if f := verifYield.Load(); f != nil {
+		(*f)()
+	}
+}
+
+func (m *Mutex) Lock() {
+	verifMaybeYield()
+	m.Mutex.Lock()
+}
+
+func (m *RWMutex) Lock() {
+	verifMaybeYield()
+	m.RWMutex.Lock()
+}
+
+func (m *RWMutex) RLock() {
+	verifMaybeYield()
+	m.RWMutex.RLock()
+}
